@@ -25,4 +25,13 @@ def main(argv):
 
 
 if __name__ == '__main__':
-    sys.exit(main(sys.argv[1:]))
+    try:
+        rc = main(sys.argv[1:])
+    except SystemExit:
+        raise
+    except BaseException as e:          # an engine failure is inconclusive (2), never a verdict
+        import traceback
+        traceback.print_exc()
+        print('INCONCLUSIVE: the checker itself failed: %r' % (e,), flush=True)
+        rc = 2
+    sys.exit(rc)
